@@ -8,6 +8,7 @@
 #define VF_BIG 100000
 
 int vf_exc;                       /* != 0: a C++ exception is in flight */
+_Bool vf_user_threw;              /* ghost: some invocation of user code threw during the verified call */
 _Bool vf_assign_threw;            /* ghost: a payload assignment threw (state of its target is T's business) */
 _Bool vf_nondet_bool(void) { int x; return x != 0; }
 int vf_nondet_int(void) { int x; return x; }
